@@ -16,7 +16,8 @@ STEP = 3000000
 
 
 def programs(tier):
-    progs = corpus.rich() + corpus.fixtures()
+    from vlib import reach
+    progs = corpus.rich() + reach.holders() + reach.channel_histories(7 if tier == "thorough" else 6) + corpus.fixtures()
     try:
         from vlib import spaces
         progs += spaces.small_programs(tier)
@@ -29,7 +30,7 @@ class C05(Check):
     id = "C05"
     level = "fault_enumeration"
     horizon_ms = 20000
-    rule = ("driver programs = hand written feature programs + the repository's fixture scripts (+ smallest-bound slices of the "
+    rule = ("driver programs = hand written feature programs + the reachability space (one program per holder kind through which a fresh object stays reachable; every non-blocking send/receive history of length <= 6 (thorough 7) on buffered channels of capacity 1-3 with fresh payloads) + the repository's fixture scripts (+ smallest-bound slices of the "
             "generated program spaces); per program with N allocation points: schedules never, every x {natural,nursery,full}, "
             "period 2/3/5/7 (full), every single allocation point x {nursery, full}; thorough adds every pair of points "
             "(N<=60: all pairs, else window 12) x {full+full, nursery+full} and the no-poison quarantine mode; "
